@@ -45,6 +45,10 @@ func (g *gateImpl) SetCount(count uint16) error {
 		return ErrGateIntegrity
 	}
 	g.count = count
+	if g.arrived == g.count {
+		// the new count may complete the gate condition for threads already waiting on it
+		g.gateCondition.Broadcast()
+	}
 	return nil
 }
 
